@@ -411,6 +411,9 @@ func mutateIndex(r *simrt.Rand, doc schemaDoc) string {
 	}
 	name := names[r.Intn(len(names))]
 	fi, _ := fis[name].(map[string]interface{})
+	if fi == nil {
+		return "" // an earlier mutation of this run already replaced the index of the field by something else
+	}
 	idx, _ := fi["index"].([]interface{})
 	tuple := func(i int) []interface{} { t, _ := idx[i].([]interface{}); return t }
 	switch r.Intn(12) {
